@@ -94,11 +94,15 @@ def complete_model(res, ast, m, rng, n_env, cap):
         top = ref_eval_all(m, env, vals)
         if k % step == 0:
             # "makes the model true" is what AtLeast.evaluate tells the user: it has to be the truth function the polyhedron is judged by
-            lib = m.evaluate(dict(env)).as_tuple()
+            # the interpretation is "a dict": also the standard subclasses that answer for missing keys (chosen from the data)
+            import collections
+            kind = (k // step + len(env)) % 4
+            arg = collections.Counter(env) if kind == 1 else collections.defaultdict(int, env) if kind == 2 else collections.OrderedDict(env) if kind == 3 else dict(env)
+            lib = build(ast).evaluate(arg).as_tuple()      # a fresh object: what is judged is this one call
             res.evaluations += 1
             if lib != (top, top):
-                return {"op": "complete", "model": ast_json(ast), "env": env,
-                        "problem": f"AtLeast.evaluate({env}) is {lib} where sign*sum>=value gives {top}: " + ("the model is reported true for a leaf assignment the polyhedron has no point for"
+                return {"op": "complete", "model": ast_json(ast), "env": env, "mapping": kind,
+                        "problem": f"AtLeast.evaluate({type(arg).__name__}({env})) is {lib} where sign*sum>=value gives {top}: " + ("the model is reported true for a leaf assignment the polyhedron has no point for"
                                    if top == 0 else "a satisfying assignment the polyhedron keeps is reported false")}
         if top != 1:
             continue
@@ -336,7 +340,10 @@ def replay(payload):
         top = ref_eval_all(m, r["env"], vals)
         x = [vals.get(c) for c, _ in cols]
         ok = None not in x and all(lo <= v <= hi for v, (_, (lo, hi)) in zip(x, cols)) and all(row[0] <= sum(a * b_ for a, b_ in zip(row[1:], x)) for row in rows)
-        lib = m.evaluate(dict(r["env"])).as_tuple()
+        import collections
+        kind = r.get("mapping", 0)
+        arg = collections.Counter(r["env"]) if kind == 1 else collections.defaultdict(int, r["env"]) if kind == 2 else collections.OrderedDict(r["env"]) if kind == 3 else dict(r["env"])
+        lib = build(r["model"]).evaluate(arg).as_tuple()
         print("model", m, "env", r["env"], "value", top, "AtLeast.evaluate", lib, "completion feasible", ok)
         return 1 if (top == 1 and not ok) or lib != (top, top) else 0
     print("model", m, cols, rows)
